@@ -24,7 +24,8 @@ LEVEL = "exploration"
 RULE = ("exhaustive product statement kind x source shapes (plain, aliased, schema-qualified, subquery, set operation, CTE) x number of "
         "sources (1-3: second FROM item / join / UPDATE..FROM / foreign table in WHERE) x clause (select, on, using, where, group by, "
         "having, order by, set, insert columns, returning, on conflict) x operand order for shared column names x six dialect "
-        "classes; seeded random specifications on top. non-trivial = at least two sources or an aliased source; distinct = the "
+        "classes x fields attached to the source object itself or to an equal, independently built twin; the outside source of a "
+        "foreign WHERE and the item of a USING join take every source shape; seeded random specifications on top. non-trivial = at least two sources or an aliased source; distinct = the "
         "specification")
 ASSUMPTIONS = ["reference scope model as stated in the property; a subquery anywhere in FROM counts as 'subquery in FROM'",
                "SQLite prepare for SQLite-dialect SELECT/UPDATE/DELETE/INSERT statements over plain/aliased/subquery sources"]
